@@ -5,6 +5,9 @@ use std::time::Duration;
 pub mod c01;
 pub mod c02;
 pub mod c03;
+pub mod c04;
+pub mod c05;
+pub mod c06;
 
 pub trait Check: UnitRunner {
   fn id(&self) -> &'static str;
@@ -20,6 +23,9 @@ pub fn make(id: &str, tier: Tier) -> Option<Box<dyn Check>> {
     "C01" => Some(Box::new(c01::C01::new(tier))),
     "C02" => Some(Box::new(c02::C02::new(tier))),
     "C03" => Some(Box::new(c03::C03::new(tier))),
+    "C04" => Some(Box::new(c04::C04::new(tier))),
+    "C05" => Some(Box::new(c05::C05::new(tier))),
+    "C06" => Some(Box::new(c06::C06::new(tier))),
     _ => None,
   }
 }
